@@ -233,6 +233,9 @@ class _ConfigParser(configparser.RawConfigParser):
     # pylint:disable=too-many-ancestors ; from our perspective, it's just one
     """Custom parser, simply to override optionxform behaviour."""
 
+    # NOTE: a header ends at the first "]" (a comment after it may contain brackets)
+    SECTCRE = re.compile(r"\[(?P<header>[^\]]+)\]")
+
     def optionxform(self, optionstr: str) -> str:
         """Non-xforming (ie. uppercase preserving) override.
 
